@@ -255,6 +255,10 @@ def do_check(run: Run, args):
                     if head:
                         run.samples.append({"obligation": row["id"], "kind": kind, "clause_text": c.ensures.get(cl, getattr(c, "goal", "")),
                                             "smtlib_head": head})
+            elif tagged_elsewhere(c, cl, run.pid):
+                # a clause that carries another property only: that property's check reports it
+                row["result"] = "failed (clause of property %s; reported by that check)" % c.property_clauses.get(cl)
+                run.notes.append(f"{fn}.{cl} is not discharged, but it is a clause of {c.property_clauses.get(cl)} only")
             else:
                 handle_failure(run, ctx, rep, fn, cl, kind, lst, row, known)
             run.clause_rows.append(row)
@@ -296,7 +300,7 @@ def do_check(run: Run, args):
             if not case.get("pre_ok"):
                 continue
             ran += 1
-            fails = native_failures(case, c)
+            fails = [(cl_, w_) for cl_, w_ in native_failures(case, c) if not tagged_elsewhere(c, cl_, run.pid)]
             for cl, why in fails:
                 bad += 1
                 src = next((x for x in cases if x["id"] == case["id"]), {})
@@ -327,6 +331,19 @@ def do_check(run: Run, args):
         run.crosscheck_rows.append({"function": c.ident, "samples": ran, "disagreements": bad,
                                     "role": "bounded stand-in" if rep.status != "ok" else "cross-check of proved clauses"})
 
+    # ---- syntactic frame scans over the whole package (a frame failure has no model: reported no-failing-input-found)
+    for sc in (mod.scans(facts) if hasattr(mod, "scans") else []):
+        total_obl += 1
+        row = {"id": f"scan:{sc['name']}", "kind": "frame-scan", "strength": "P", "vcs": sc.get("sites", 0), "backend": ["ast scan"], "seconds": 0.0,
+               "property": run.pid, "result": "discharged" if sc["ok"] else "refuted"}
+        run.clause_rows.append(row)
+        if sc["ok"]:
+            discharged += 1
+        else:
+            path = write_replay(run, "scan", sc["name"], {"kind": "frame-scan", "clause_text": sc.get("text", ""), "offending_sites": sc.get("detail"),
+                                                          "failing_input_found": False,
+                                                          "why": "a write outside the frame the property allows; a frame failure has no counter-model"})
+            run.violations.append({"fn": "scan", "clause": sc["name"], "replay": path, "confirmed": False, "why": str(sc.get("detail"))[:300]})
     # ---- bounded / lifted native scripts declared by the property module
     for b in (mod.bounded(run.tier, run.seed) if hasattr(mod, "bounded") else []):
         run_bounded(run, ctx, b, known)
@@ -352,6 +369,11 @@ def do_check(run: Run, args):
         os.makedirs(os.path.dirname(p), exist_ok=True)
         json.dump(allb, open(p, "w"), indent=1, sort_keys=True)
     return finish(run, mod, total_obl, discharged)
+
+
+def tagged_elsewhere(c, clause, pid):
+    tag = c.property_clauses.get(clause, "")
+    return bool(tag) and pid not in [t.strip() for t in tag.split(",")]
 
 
 _NG = {}
